@@ -27,6 +27,9 @@ def make_topo(rng, case):
 
 
 def choose_subset(topo, rng, case):
+    if case.get("cells_ij"):
+        # explicit shape on a square lattice (cells are numbered i * ny + j)
+        return sorted(int(i) * int(case["ny"]) + int(j) for i, j in case["cells_ij"])
     if case.get("flower"):
         # one cell whose neighbours are all present, together with those neighbours: as many equations as unknowns
         adj = topo.adjacency()
@@ -82,6 +85,35 @@ def build_static(case):
                         center_method="mean", **st)
     sc = StaticCase()
     sc.case, sc.topo, sc.sub, sc.mob, sc.sim, sc.bm, sc.rng = case, topo, sub, mob, sim, bm, rng
+    return sc
+
+
+def build_static_axis_ridge(case):
+    """a straight tissue posed so that one inner two-point interface between two junctions of three cells is EXACTLY parallel to a
+    coordinate axis (its tangent has an exactly zero component): the pose is chosen, then the far end is moved by the rounding
+    error (1e-16 relative: the force balance of the ground truth is not affected at the tolerance of any check)"""
+    probe = build_static(dict(case, angle=0.0))
+    if probe is None:
+        return None
+    rng = np.random.default_rng(case["seed"] + 29)
+    cov = impl.cells_of_vertex(probe.bm.cells)
+    cand = sorted(tuple(sorted(r)) for r, ids in probe.bm.ridge_points.items()
+                  if len(ids) == 2 and len(cov.get(ids[0], ())) >= 3 and len(cov.get(ids[1], ())) >= 3)
+    if not cand:
+        return None
+    a, b = cand[int(rng.integers(len(cand)))]
+    pa, pb = probe.bm.vertices[probe.bm.vid_of_junction[a]], probe.bm.vertices[probe.bm.vid_of_junction[b]]
+    th = math.atan2(pb.y - pa.y, pb.x - pa.x)
+    k = int(rng.integers(4))
+    sc = build_static(dict(case, angle=float(-th + k * math.pi / 2)))
+    if sc is None:
+        return None
+    pa, pb = sc.bm.vertices[sc.bm.vid_of_junction[a]], sc.bm.vertices[sc.bm.vid_of_junction[b]]
+    if abs(pb.y - pa.y) <= abs(pb.x - pa.x):
+        pb.y = pa.y
+    else:
+        pb.x = pa.x
+    sc.axis_ridge = (a, b)
     return sc
 
 
